@@ -250,6 +250,8 @@ Definition L (s : string) : list N :=
   map (fun a => let c := N_of_ascii a in if c =? 47 then 10 else c) (list_ascii_of_string s).
 
 Definition R (k : nat) (s : string) : rline := (k, L s).
+Arguments L _%string.
+Arguments R _%nat _%string.
 
 (* Example 8.1 / 8.2: indentation indicators *)
 Example ex_8_2_detected : block_value true CClip [Text 0 (L "detected")] = L "detected/". Proof. reflexivity. Qed.
